@@ -73,6 +73,8 @@ M.contract(F, "match_deploy_rule", params=dict(rules=RulesD, cmd_path=SEQS, cont
 # ---- native evaluation
 def _native_default():
     from collections import OrderedDict as odict
+    from bounded.common import setup_annet
+    setup_annet()        # the default rule imports its apply logic through the rulebook provider
     from annet.rulebook import deploying
     return deploying.match_deploy_rule(odict(), ("zzz",), {})
 
